@@ -210,6 +210,13 @@ func (f *Fact) BumpH() { f.H++ }
 // SetH sets hidden state.
 func (f *Fact) SetH(v int64) { f.H = v }
 
+// PokeI64 changes the exported field I64 from "internal struct logic" (the engine does not see
+// the write; rules must announce it with Forget/Changed).
+func (f *Fact) PokeI64(v int64) { f.I64 = v }
+
+// PokeS changes the exported field S from internal logic.
+func (f *Fact) PokeS(v string) { f.S = v }
+
 // ---------------------------------------------------------------------------------------------
 // Failing methods (C14)
 
